@@ -127,6 +127,8 @@ def rules(chk, db):
     rwrules.check_stream_class(chk, db, 'nop::StreamWriter', 'writer', 'ST', 'SS')
     rwrules.check_fd_class(chk, db, 'nop::FdReader', 'reader', 'FD')
     rwrules.check_fd_class(chk, db, 'nop::FdWriter', 'writer', 'FD')
+    from . import c16
+    c16.rules(chk, db, prefix='B.')
     lanes(chk, db, 'L')
     inventory(chk, db, 'INV')
 
